@@ -57,7 +57,9 @@ func cmdKConfig(args []string) error {
 		idx              int
 	}
 	var keys []key
-	excluded := map[string]bool{"WeatherRootFolder": true, "ResultFileExt": true, "WeatherFolder": true} // defaults derived from other values
+	excluded := map[string]bool{"WeatherRootFolder": true} // default derived from the working directory
+	// keys whose default is filled in by readConfig after file and line: ResultFileExt from the EFFECTIVE
+	// ResultFileFormat (1 = csv, else RES), WeatherFolder "Weather"
 	for i := 0; i < dt.NumField(); i++ {
 		f := dt.Field(i)
 		tn := f.Type.Name()
@@ -87,6 +89,10 @@ func cmdKConfig(args []string) error {
 			text = strconv.FormatFloat(v, 'f', 2, 64)
 			return text, strconv.FormatFloat(v, 'g', -1, 64), text
 		case "int":
+			if k.name == "ResultFileFormat" {
+				v := r.Intn(2)
+				return strconv.Itoa(v), strconv.Itoa(v), strconv.Itoa(v)
+			}
 			v := r.Intn(3000) - 100
 			text = strconv.Itoa(v)
 			return text, text, text
@@ -95,6 +101,10 @@ func cmdKConfig(args []string) error {
 			o := opts[r.Intn(len(opts))]
 			return o[0], o[1], "'" + o[0] + "'"
 		default:
+			if k.name == "ResultFileExt" {
+				t := []string{"csv", "RES", "txt", "out"}[r.Intn(4)]
+				return t, t, "'" + t + "'"
+			}
 			if k.name == "EndDate" { // parsed as a date (DDMMYYYY) when the configuration is read
 				t := fmt.Sprintf("%02d%02d%04d", 1+r.Intn(28), 1+r.Intn(12), 1950+r.Intn(120))
 				return t, t, "'" + t + "'"
@@ -145,8 +155,31 @@ func cmdKConfig(args []string) error {
 		hp := hermes.NewHermesFilePath(root, "p", "x", "", "")
 		cfg := hermes.VerifReadConfig(&g, argVals, &hp)
 		cv := reflect.ValueOf(cfg)
+		// effective value of a key by the rule under test (line over file over default), evaluated by the harness
+		given := func(name string, def string) string {
+			if v, ok := argCanon[name]; ok {
+				return v
+			}
+			if v, ok := fileVals[name]; ok {
+				return v
+			}
+			return def
+		}
 		for _, k := range keys {
 			e := map[string]interface{}{"ev": "cfg", "case": id, "key": k.name, "kind": k.kind, "def": canon(dv.Field(k.idx)), "eff": canon(cv.Field(k.idx))}
+			switch k.name {
+			case "ResultFileExt":
+				// documented default: csv for the csv style, RES otherwise - of the result style the run actually uses
+				if given("ResultFileFormat", canon(dv.FieldByName("ResultFileFormat"))) == "1" {
+					e["def"] = "csv"
+				} else {
+					e["def"] = "RES"
+				}
+				e["derived"] = true
+			case "WeatherFolder":
+				e["def"] = "Weather"
+				e["derived"] = true
+			}
 			fv, hf := fileVals[k.name]
 			e["hasFile"], e["file"] = hf, fv
 			ac, ha := argCanon[k.name]
